@@ -35,8 +35,115 @@ var fieldFactTable = []fieldFactSpec{
 		reason: "codes outside 400-599 rejected while parsing (C14d)"},
 }
 
+// lenFactSpec: minimum length of a slice field of objects visible to handlers.
+type lenFactSpec struct {
+	field       string
+	minLen      int64
+	pkg         string
+	establisher string // function that registers the object after testing the length
+	regField    string // the map field the object is registered into
+	reason      string
+}
+
+var lenFactTable = []lenFactSpec{
+	{field: "app.RepData.Segments", minLen: 1, pkg: pkgApp, establisher: "(*assetMgr).loadAsset", regField: "app.asset.Reps",
+		reason: "representations without segments are refused before they are registered in asset.Reps (C15c)"},
+}
+
+func (ff *fieldFacts) minLenOfField(f string) (int64, bool) {
+	if ff == nil {
+		return 0, false
+	}
+	n, ok := ff.minLens[f]
+	return n, ok
+}
+
+// verifyLenFact: in the establisher, every MapUpdate into regField stores a value v
+// such that the update is dominated by the test len(v.field) == 0 -> error exit;
+// and the field is stored only by code that cannot run while serving.
+func verifyLenFact(p *Program, spec lenFactSpec) (bool, string) {
+	fn := p.lookupFunc(spec.pkg, spec.establisher)
+	if fn == nil {
+		return false, "establisher " + spec.establisher + " not found"
+	}
+	f := factsOf(fn)
+	n := 0
+	// all registrations (anywhere in the repository) must be in the establisher
+	for _, g := range p.allRepoFuncs() {
+		for _, b := range g.Blocks {
+			for _, in := range b.Instrs {
+				mu, ok := in.(*ssa.MapUpdate)
+				if !ok {
+					continue
+				}
+				if fld, ok := loadedField(mu.Map); !ok || fld != spec.regField {
+					continue
+				}
+				if g != fn {
+					return false, "objects are also registered into " + spec.regField + " in " + shortFn(g) + " at " + p.pos(mu.Pos())
+				}
+				n++
+				guarded := false
+				for _, c := range f.dominatingConds(b) {
+					bo, ok := c.V.(*ssa.BinOp)
+					if !ok {
+						continue
+					}
+					lc, ok := bo.X.(*ssa.Call)
+					if !ok {
+						continue
+					}
+					bi, ok := lc.Call.Value.(*ssa.Builtin)
+					if !ok || bi.Name() != "len" {
+						continue
+					}
+					fld, ok := loadedField(lc.Call.Args[0])
+					if !ok || fld != spec.field {
+						continue
+					}
+					// the tested object is the registered one
+					var base ssa.Value
+					switch a := lc.Call.Args[0].(type) {
+					case *ssa.UnOp:
+						if fa, ok := a.X.(*ssa.FieldAddr); ok {
+							base = fa.X
+						}
+					}
+					if base == nil || !sameValue(base, mu.Value) {
+						continue
+					}
+					k, ok := constInt(bo.Y)
+					if !ok {
+						continue
+					}
+					op := bo.Op
+					if !c.Pos {
+						op = negateOp(op)
+					}
+					if (op == token.NEQ && k == 0 && spec.minLen <= 1) || (op == token.GTR && k+1 >= spec.minLen) || (op == token.GEQ && k >= spec.minLen) {
+						guarded = true
+					}
+				}
+				if !guarded {
+					return false, "registration at " + p.pos(mu.Pos()) + " is not dominated by a test that len(" + spec.field + ") >= " + itv{lo: spec.minLen, hi: spec.minLen}.String()
+				}
+			}
+		}
+	}
+	if n == 0 {
+		return false, "no registration into " + spec.regField + " found in " + spec.establisher
+	}
+	for _, st := range fieldStores(p, spec.field) {
+		if _, serving := p.reachH[st.Parent()]; serving {
+			return false, "field is stored while serving in " + shortFn(st.Parent())
+		}
+	}
+	return true, "every registration into " + spec.regField + " is dominated by the length test; the field is written at start-up only"
+}
+
 type fieldFacts struct {
 	p      *Program
+	minLens map[string]int64
 	ranges map[string]itv
 	notes  []string
 	failed []string
@@ -70,7 +177,26 @@ func fieldStores(p *Program, field string) []*ssa.Store {
 }
 
 func buildFieldFacts(p *Program, r *Reporter, needed map[string]bool) *fieldFacts {
-	ff := &fieldFacts{p: p, ranges: map[string]itv{}}
+	ff := &fieldFacts{p: p, ranges: map[string]itv{}, minLens: map[string]int64{}}
+	for _, spec := range lenFactTable {
+		if needed != nil && !needed[spec.field] {
+			continue
+		}
+		ok, msg := verifyLenFact(p, spec)
+		fnName := spec.establisher
+		if ok {
+			ff.minLens[spec.field] = spec.minLen
+			ff.notes = append(ff.notes, "len("+spec.field+") >= 1: "+msg)
+			if r != nil {
+				r.Discharge("FIELD-FACT", fnName, "lenguard:"+spec.field, "-", msg+" — "+spec.reason)
+			}
+		} else {
+			ff.failed = append(ff.failed, spec.field+": "+msg)
+			if r != nil {
+				r.Violate("FIELD-FACT", fnName, "lenguard:"+spec.field, "-", "length validation of "+spec.field+" not found: "+msg+" ("+spec.reason+")", nil)
+			}
+		}
+	}
 	accErrProtocolOK, why := verifyAccErrProtocol(p)
 	errRetProtocolOK, why2 := verifyErrRetProtocol(p)
 	for _, spec := range fieldFactTable {
